@@ -2,7 +2,11 @@
 
 package ipdict
 
-import "net"
+import (
+	"net"
+
+	"github.com/bfenetworks/bfe/bfe_util/hash_set"
+)
 
 // Verification hooks for C19 (add-only; injected with go build -overlay).
 
@@ -29,3 +33,17 @@ func (ipItems *IPItems) VerifMergeItems() int { return ipItems.mergeItems() }
 
 // VerifSortable exposes the sort.Interface value that IPItems.Sort hands to sort.Sort.
 func (ipItems *IPItems) VerifSortable() ipPairs { return ipItems.items }
+
+// VerifNewIPItemsHash is NewIPItems with a caller-supplied hash function for the single-address set
+// (lets the harness run code between the steps of IPTable.Search).
+func VerifNewIPItemsHash(maxSingleIPNum int, maxPairIPNum int, hash func([]byte) uint64) (*IPItems, error) {
+	items, err := NewIPItems(maxSingleIPNum, maxPairIPNum)
+	if err != nil {
+		return nil, err
+	}
+	items.ipSet, err = hash_set.NewHashSet(maxSingleIPNum+1, IP_LENGTH, true, hash)
+	if err != nil {
+		return nil, err
+	}
+	return items, nil
+}
